@@ -107,6 +107,21 @@ fn call_any(slot: &mut Option<Unimock>, m: u32, a: u8) -> String {
             let rc = Arc::new(slot.take().unwrap());
             obs(catch_unwind(AssertUnwindSafe(move || rc.p_arc(a).take())), show_val)
         }
+        27 => {
+            // the only strong owner, but a Weak pointer is outstanding during the call
+            let rc = Rc::new(slot.take().unwrap());
+            let weak = Rc::downgrade(&rc);
+            let r = obs(catch_unwind(AssertUnwindSafe(move || rc.p_rc(a).take())), show_val);
+            drop(weak);
+            r
+        }
+        28 => {
+            let rc = Arc::new(slot.take().unwrap());
+            let weak = Arc::downgrade(&rc);
+            let r = obs(catch_unwind(AssertUnwindSafe(move || rc.p_arc(a).take())), show_val);
+            drop(weak);
+            r
+        }
         21 | 25 | 26 => {
             // another Rc to the same instance is kept alive during the call: the instance survives
             let rc = Rc::new(slot.take().unwrap());
